@@ -4,9 +4,9 @@ LEVEL = "model_checking"
 
 
 def run(ctx, args):
-    run_focus(ctx, "C13", [("MC_ProxyC13q.cfg" if ctx.quick else "MC_ProxyC13t.cfg", 1, 3)],
+    run_focus(ctx, "C13", [("MC_ProxyC13q.cfg" if ctx.quick else "MC_ProxyC13t.cfg", 1, 3), ("MC_ProxyC13long.cfg", 3, 1)],
               reach=("Reach_OwnConsumed",), driver_env={"VERIF_HARD": 1, "VERIF_REPS": 3}, extra_drivers=[("TestVfKeepWiring", {}), ("TestVfHostsWiring", {})],
-              rule="Route sets of 0-%d entries in every header-line layout, first entry in {listener by address, by alias, alias without port, "
+              rule="Route sets of 0-%d entries in every header-line layout (and, over a smaller vocabulary of entries, of up to 6 entries in every one of the up to 32 layouts), first entry in {listener by address, by alias, alias without port, "
                    "right host wrong port, right port foreign host, listener of another entry, foreign hops}, keep-next-hop-route on/off, listener port 5060/5070; "
                    "entries decorated with display names, URI parameters with and without values, header parameters; plus the configuration wiring: startProxy from YAML with "
                    "keepNextHopRoute spelled true / yes / 1 / on / t / y / YES / On / tRuE / Y, false / no / 0 / off / empty / other, absent with and without the KEEP_NEXT_HOP_ROUTE environment variable; and the alias tables: a listener alias declared in the top-level hosts table, in the service's, or in both with equal / different addresses" % (3 if ctx.quick else 4))
